@@ -334,3 +334,13 @@ mod tests {
         .is_empty());
     }
 }
+
+/// Verification hook: the whole seconds after insertion at which a record received with `ttl`
+/// is due for a refresh and expires, as `ExpirationInfo::new` computes them.
+#[cfg(simple_dns_verif)]
+pub fn verif_expiration_offsets(ttl: u32) -> (u64, u64) {
+    let before = Instant::now();
+    let info = ExpirationInfo::new(ttl);
+    let secs = |at: Instant| at.duration_since(before).as_secs_f64().round() as u64;
+    (secs(info.refresh_at), secs(info.expire_at))
+}
